@@ -1,6 +1,8 @@
 import Uom.Model.Oracle
 import Uom.Model.Ops
 import Uom.Model.OpsOracle
+import Uom.Model.Text
+import Std.Data.HashMap
 /-!
 # Line protocol: one harness case per line → model recomputation + oracle verdicts
 -/
@@ -47,6 +49,47 @@ def valueKey (x : Fl) : String :=
   | .inf _ => "v:inf"
   | .fin _ 0 _ => "v:zero"
   | .fin _ _ _ => "v:finite"
+
+/-! ## the label / coefficient table (loaded from the Lean-generated dump that precedes the cases) -/
+
+structure UnitRow where
+  name : String
+  labels : Labels
+  /-- coef, consA, consS as f64 hex then f32 hex -/
+  conv : Array String
+deriving Inhabited
+
+structure TextTable where
+  units : Std.HashMap String (Array UnitRow) := {}
+  dims : Std.HashMap String (List Int) := {}
+
+def bytesOfHex? (s : String) : Option Bytes :=
+  if !s.startsWith "x" then none
+  else
+    let cs := (s.drop 1).toString.toList
+    let rec go : List Char → Option Bytes
+      | [] => some []
+      | [_] => none
+      | a :: b :: rest => do
+        let x ← hexDigit? a
+        let y ← hexDigit? b
+        let r ← go rest
+        return (x * 16 + y) :: r
+    go cs
+
+def hexOfBytes (b : Bytes) : String := "x" ++ String.join (b.map fun x => toHex x 2)
+
+/-- `unit` / `quantity` lines of the dump extend the table -/
+def TextTable.absorb (t : TextTable) (line : String) : Option TextTable :=
+  match line.splitOn " " with
+  | ["unit", m, _idx, name, abbr, sing, plur, c64, a64, s64, c32, a32, s32] => do
+    let row : UnitRow := { name := name, labels := { abbr := ← bytesOfHex? abbr, sing := ← bytesOfHex? sing, plur := ← bytesOfHex? plur },
+                           conv := #[c64, a64, s64, c32, a32, s32] }
+    some { t with units := t.units.insert m ((t.units.getD m #[]).push row) }
+  | ["quantity", m, _name, _desc, _kind, dims] =>
+    some { t with dims := t.dims.insert m ((dims.splitOn ",").filterMap parseInt?) }
+  | "base" :: _ => some t
+  | _ => none
 
 structure LineResult where
   outs : List Outcome
@@ -193,7 +236,109 @@ def handleConvx (N : NumTy) (isRat : Bool) (vt coef consA consS pows v newObs ge
            cmpS "rt.model" mRt rtObs rtOk rtPanics, rtOracle],
           keys, !(N.eqV v mNew)⟩
 
-def handleLine (line : String) : Option LineResult :=
+def strOutcome (tag : String) (model obs : Bytes) : Outcome :=
+  if model == obs then .ok else .diff tag s!"model={hexOfBytes model} impl={hexOfBytes obs}"
+
+def isOneV (N : NumTy) (vt : String) (x : String) : Bool :=
+  match fmtOf? vt with
+  | some f => match flOf? f x with | some v => Fl.isOne v | none => false
+  | none => x == "1" || x == "1/1"
+
+/-- C11: `format_args(unit, style).with(q)` under a format spec -/
+def handleFmt (tbl : TextTable) (N : NumTy) (vt module idx style coef consS pows v x out rawfmt : String) : Option LineResult := do
+  let rows ← tbl.units.get? module
+  let row ← rows[idx.toNat?.getD 0]?
+  let S := N.S
+  let coefT ← N.parseT coef
+  let consT ← N.parseT consS
+  let f := baseFactor S (← (pows.splitOn ":").mapM N.parseT)
+  let v ← N.parseV v
+  let out ← bytesOfHex? out
+  let raw ← bytesOfHex? rawfmt
+  -- the value converted to the unit
+  let mx := N.showV (fromBase S coefT consT f v)
+  let convOk : Outcome := if !(N.tOk coefT && N.tOk f) then .guard "fixed-width factor"
+    else if mx == x then .ok else .diff s!"fmt.{vt}.value.model" s!"model={mx} impl={x}"
+  -- for float storage the published coefficient must be the table's
+  let tblOk : Outcome := match vt with
+    | "f64" => if row.conv[0]! == coef && row.conv[2]! == consS then .ok else .diff "fmt.table" s!"table={row.conv[0]!} impl={coef}"
+    | "f32" => if row.conv[3]! == coef && row.conv[5]! == consS then .ok else .diff "fmt.table" s!"table={row.conv[3]!} impl={coef}"
+    | _ => .ok
+  let st := if style == "a" then Style.abbreviation else Style.description
+  let expect := fmtArgs (fun _ => raw) (fun _ => isOneV N vt x) row.labels st ()
+  let orc : Outcome := if expect == out then .ok
+    else .prop s!"fmt.{vt}.oracle" "output is not <storage type's formatting of the converted value> <space> <abbreviation | singular iff value is one | plural>"
+  return ⟨[convOk, tblOk, orc], [s!"fmt:{vt}:{style}", if isOneV N vt x then "fmt:one" else "fmt:not-one"], true⟩
+
+/-- C11: `Debug` of a bare quantity -/
+def handleDbg (tbl : TextTable) (module : String) (baseMods baseUnits : List String) (out rawdbg : String) : Option LineResult := do
+  let dim ← tbl.dims.get? module
+  let abbrs ← (baseMods.zip baseUnits).mapM fun (m, u) => do
+    let rows ← tbl.units.get? m
+    let row ← rows.find? (fun r => r.name == u)
+    return row.labels.abbr
+  let expect := fmtDebug (← bytesOfHex? rawdbg) abbrs dim
+  let o ← bytesOfHex? out
+  return ⟨[if expect == o then .ok else .prop "dbg.oracle" s!"Debug output is not <value> followed by ` <base abbreviation>^<exponent>` for the non-zero exponents in system order (expected {hexOfBytes expect})"],
+          ["dbg"], dim.any (· != 0)⟩
+
+/-- C12: `from_str` -/
+def handleParse (tbl : TextTable) (vt module pows input numpart numparse result : String) : Option LineResult := do
+  let f ← fmtOf? vt
+  let rows ← tbl.units.get? module
+  let S := flS f
+  let fac := baseFactor S (← flList? f pows)
+  let inp ← bytesOfHex? input
+  let off := if vt == "f64" then 0 else 3
+  let parse (num : Bytes) : Option Fl :=
+    -- `V::from_str` is a parameter: the harness parsed the number part; it must be the part the model splits off
+    if hexOfBytes num == numpart then (if numparse.startsWith "ok:" then flOf? f (numparse.drop 3).toString else none) else none
+  let splitOk : Outcome := match splitFirstSpace inp with
+    | none => if numpart == "-" then .ok else .diff "parse.split" "model finds no separator"
+    | some (num, _) => if hexOfBytes num == numpart then .ok else .diff "parse.split" s!"model number part={hexOfBytes num} impl={numpart}"
+  let mk (i : Nat) (v : Fl) : String :=
+    match rows[i]? with
+    | some row => match flOf? f row.conv[off]!, flOf? f row.conv[off + 1]! with
+      | some c, some a => "ok:" ++ flHex f (toBase S c a fac v)
+      | _, _ => "?"
+    | none => "?"
+  let m : String := match fromStr (rows.toList.map (·.labels)) parse mk inp with
+    | .ok s => s
+    | .noSeparator => "nosep"
+    | .valueParseError => "badnum"
+    | .unknownUnit => "unknown"
+  let key := if m.startsWith "ok:" then "parse:ok" else s!"parse:{m}"
+  return ⟨[splitOk, if m == result then .ok else .diff s!"parse.{vt}.model" s!"model={m} impl={result}",
+           if result == "PANIC" then .prop "parse.panic" "from_str panicked" else .ok], [key], true⟩
+
+/-- C12: format in a registered unit, parse the text back: the original quantity up to conversion rounding -/
+def handleParseRt (tbl : TextTable) (vt module idx pows v back : String) : Option LineResult := do
+  let f ← fmtOf? vt
+  let rows ← tbl.units.get? module
+  let row ← rows[idx.toNat?.getD 0]?
+  let off := if vt == "f64" then 0 else 3
+  let coef ← flOf? f row.conv[off]!
+  let consA ← flOf? f row.conv[off + 1]!
+  let consS ← flOf? f row.conv[off + 2]!
+  let pw ← flList? f pows
+  let v ← flOf? f v
+  if !back.startsWith "ok:" then
+    return ⟨[.prop "parse.rt.oracle" s!"formatting then parsing failed with {back}"], ["prt"], true⟩
+  let b ← flOf? f (back.drop 3).toString
+  let S := flS f
+  let fac := baseFactor S pw
+  let c : ConvCase := { fmt := f, coef := coef, consA := consA, consS := consS, pows := pw, v := v }
+  if !v.isFinite then
+    return ⟨[if Fl.toBits f b = Fl.toBits f (toBase S coef consA fac (fromBase S coef consS fac v)) then .ok else .diff "parse.rt.model" "non-finite round trip differs"], ["prt:nonfinite"], false⟩
+  let x := fromBase S coef consS fac v
+  if !(fromBaseNormal c fac) || !(toBaseNormal { c with v := x } fac) || !b.isFinite then
+    return ⟨[.guard "overflow/underflow"], ["prt"], false⟩
+  let u := uro f
+  let k := ratAbs (consA.toRat * coef.toRat / fac.toRat)
+  let ok := ratAbs (b.toRat - v.toRat) ≤ 8 * u * (ratAbs v.toRat + k)
+  return ⟨[if ok then .ok else .prop "parse.rt.oracle" "format-then-parse is more than 8u·(|v| + |offset|) away from the original stored value"], ["prt"], true⟩
+
+def handleLine (tbl : TextTable) (line : String) : Option LineResult :=
   match line.splitOn " " with
   | ["conv", vt, _base, _module, _unit, coef, consA, consS, pows, v, newObs, getObs, rtObs] => do
     let c ← convCase? vt coef consA consS pows v
@@ -262,6 +407,13 @@ def handleLine (line : String) : Option LineResult :=
     let norm ← flOf? f norm
     let obs ← [nre, nim, gre, gim, rre, rim].mapM (flOf? f)
     return handleCplx f c im norm obs
+  | ["fmt", vt, _base, module, idx, style, _spec, coef, consS, pows, v, x, out, rawfmt] =>
+    match numTy? vt with
+    | some N => handleFmt tbl N vt module idx style coef consS pows v x out rawfmt
+    | none => none
+  | ["dbg", _vt, _base, module, bmods, bunits, out, rawdbg] => handleDbg tbl module (bmods.splitOn ",") (bunits.splitOn ",") out rawdbg
+  | ["parse", vt, _base, module, pows, input, numpart, numparse, result] => handleParse tbl vt module pows input numpart numparse result
+  | ["prt", vt, _base, module, idx, _style, pows, v, back] => handleParseRt tbl vt module idx pows v back
   | ["b2", vt, form, _q, _u, a, b, qres, rawres] =>
     match numTy? vt with
     | some N => handleSame N vt form a b qres rawres
